@@ -117,7 +117,28 @@ def r17b(ctx: Context) -> None:
         rule.fail(key + ": command line first", where(decide), "the enabled decision no longer starts from the command-line settings")
         return
     rule.ok(key + ": command line first", f"{value_var} = command-line decision")
-    config_sites = [s for s in prog.sites_in(decide) if find in s.targets]
+    def _enabled_read(expr: ast.AST) -> bool:
+        return isinstance(expr, ast.Call) and isinstance(expr.func, ast.Attribute) and expr.func.attr.startswith("get_") and bool(expr.args) and isinstance(expr.args[0], ast.Constant) and expr.args[0].value == "enabled"
+
+    def _config_helper(helper: FuncInfo) -> bool:
+        """a helper of the manager that looks the rule's section up and returns its 'enabled' entry (or None)"""
+        if helper in (decide, cmd, find) or helper.cls != decide.cls or find.qualname not in prog.reachable([helper]):
+            return False
+        rets = returns_of(helper)
+
+        def configured(expr: ast.AST, depth: int = 0) -> bool:
+            if isinstance(expr, ast.Constant) and expr.value is None or _enabled_read(expr):
+                return True
+            if isinstance(expr, ast.Name) and depth < 3:
+                values = [n.value for n in walk_local(helper.node) if isinstance(n, ast.Assign) and any(isinstance(t, ast.Name) and t.id == expr.id for t in n.targets)]
+                return bool(values) and all(configured(v, depth + 1) for v in values)
+            return False
+
+        return bool(rets) and all(configured(r) for r in rets) and any(not (isinstance(r, ast.Constant) and r.value is None) for r in rets)
+
+    config_helpers = [t for s in prog.sites_in(decide) for t in s.targets if _config_helper(t)]
+    consults = lambda site: bool(site) and (find in site.targets or any(t in config_helpers for t in site.targets))  # noqa: E731
+    config_sites = [s for s in prog.sites_in(decide) if consults(s)]
     if not config_sites:
         rule.fail(key + ": configuration", where(decide), "the enabled decision never consults the configuration section of the rule")
     # The chain as a property of every path through the function (whatever its shape: nested ifs, early returns,
@@ -133,7 +154,7 @@ def r17b(ctx: Context) -> None:
             site = site_for(prog, decide, expr)
             if site and cmd in site.targets:
                 return "cmd"
-            if isinstance(expr.func, ast.Attribute) and expr.func.attr.startswith("get_") and expr.args and isinstance(expr.args[0], ast.Constant) and expr.args[0].value == "enabled":
+            if _enabled_read(expr) or (site and site.targets and all(t in config_helpers for t in site.targets)):
                 return "config"
         if isinstance(expr, ast.Attribute) and expr.attr == "plugin_enabled_by_default":
             return "default"
@@ -168,7 +189,7 @@ def r17b(ctx: Context) -> None:
                 for sub in ast.walk(stmt):
                     if isinstance(sub, ast.Call):
                         site = site_for(prog, decide, sub)
-                        if site and find in site.targets:
+                        if consults(site):
                             consulted = True
                             if known.get("cmd") != "none":
                                 problems.append("the configuration section is consulted on a path on which the command line has not been found silent")
@@ -177,7 +198,7 @@ def r17b(ctx: Context) -> None:
                 for sub in ast.walk(stmt.value):
                     if isinstance(sub, ast.Call):
                         site = site_for(prog, decide, sub)
-                        if site and find in site.targets:
+                        if consults(site):
                             consulted = True
                             if known.get("cmd") != "none":
                                 problems.append("the configuration section is consulted on a path on which the command line has not been found silent")
@@ -221,14 +242,14 @@ def r17b(ctx: Context) -> None:
     else:
         rule.ok(key + ": chain", f"{verdict_paths} path(s): command line, then configuration when it is silent, then the default when both are silent")
     # the 'enabled' key is read as a boolean with no default (None = not mentioned)
-    reads = [n for n in walk_local(decide.node) if isinstance(n, ast.Call) and isinstance(n.func, ast.Attribute) and n.func.attr.startswith("get_") and n.args and isinstance(n.args[0], ast.Constant)]
-    for read in reads:
+    reads = [(f, n) for f in [decide] + config_helpers for n in walk_local(f.node) if isinstance(n, ast.Call) and isinstance(n.func, ast.Attribute) and n.func.attr.startswith("get_") and n.args and isinstance(n.args[0], ast.Constant)]
+    for holder, read in reads:
         if read.args[0].value == "enabled":
             default = next((k.value for k in read.keywords if k.arg == "default_value"), None)
             if read.func.attr == "get_boolean_property" and isinstance(default, ast.Constant) and default.value is None:
-                rule.ok(func_key(decide, read), "tri-state read of 'enabled'")
+                rule.ok(func_key(holder, read), "tri-state read of 'enabled'")
             else:
-                rule.fail(func_key(decide, read), where(decide, read), "'enabled' is not read as a boolean with default None: an unset key cannot be told from false")
+                rule.fail(func_key(holder, read), where(holder, read), "'enabled' is not read as a boolean with default None: an unset key cannot be told from false")
     # command line: a rule named by -d is off whatever -e says; -e turns it on only when -d was silent; otherwise
     # the command line is silent (None).  Checked on every path through the function, whatever its shape.
     ckey = func_key(cmd)
